@@ -79,7 +79,7 @@ PROPERTY_META = {
                 design_ref='DESIGN.md 6 C13'),
     'C14': dict(claimed=True, level='model_checking',
                 text='Contracts on the real reference operators >, <=, >= state them in terms of the real operator< (a > b == b < a, a <= b == !(b < a), a >= b == !(a < b)); irreflexivity, asymmetry and a < b => a != b are checked on the real operator< / operator== for symbolic element contents including padding. The same laws are checked on the real vector operators, and the real vector operator< of byte lists is verified against the lexicographical comparison of the element sequences written over sizes and field values only.',
-                note='Bounded as C13. Transitivity is not under contract; vector operator< has an exact specification only for lists of single-byte unsigned plain fields (other lists: laws only).',
+                note='Bounded as C13. Transitivity of < is checked as a law on the real reference operator with three symbolic operands, not at vector level; vector operator< has an exact specification only for lists of single-byte unsigned plain fields (other lists: laws only).',
                 design_ref='DESIGN.md 6 C14'),
     'C15': dict(claimed=True, level='model_checking',
                 text='The real cntgs::detail::uninitialized_construct (the single funnel of every FixedSize/VaryingSize store) is verified per stored type x source value type x source form (pointer, std::array lvalue and rvalue, C array, non-contiguous generated iterator, aliasing-safe path) against: stored item k == StoredType(source item k) evaluated in C on the scalar types for an arbitrary witness k, returned end == target + n items, and an assigns clause that contains only the target items (sources unmodified). emplace_at is proved (unbounded) to pass its arguments to these stores at the right addresses.',
